@@ -58,65 +58,7 @@ func ucsIdx(l []string, s string) int {
 
 // ---- goroutine-parking schedule driver (yield site UseCase.copied)
 
-func ucsGoid() string {
-	var buf [64]byte
-	n := runtime.Stack(buf[:], false)
-	f := strings.Fields(string(buf[:n]))
-	if len(f) > 1 {
-		return f[1]
-	}
-	return ""
-}
-
-type ucsG struct {
-	parked  chan struct{}
-	release chan struct{}
-	done    chan struct{}
-	op      []string
-	state   string // parked | blocked
-}
-
-type ucsSched struct {
-	mu sync.Mutex
-	gs map[string]*ucsG // goroutine id -> control block
-}
-
-var ucsS = &ucsSched{gs: map[string]*ucsG{}}
-
-func (s *ucsSched) hook(site string) {
-	if site != "UseCase.copied" {
-		return
-	}
-	s.mu.Lock()
-	g := s.gs[ucsGoid()]
-	s.mu.Unlock()
-	if g == nil {
-		return
-	}
-	g.parked <- struct{}{}
-	<-g.release
-}
-
-func (s *ucsSched) start(f func(), op []string) *ucsG {
-	g := &ucsG{parked: make(chan struct{}, 1), release: make(chan struct{}, 1), done: make(chan struct{}), op: op}
-	reg := make(chan struct{})
-	go func() {
-		id := ucsGoid()
-		s.mu.Lock()
-		s.gs[id] = g
-		s.mu.Unlock()
-		close(reg)
-		defer func() {
-			s.mu.Lock()
-			delete(s.gs, id)
-			s.mu.Unlock()
-			close(g.done)
-		}()
-		f()
-	}()
-	<-reg
-	return g
-}
+var ucsS = h.NewSched("UseCase.copied")
 
 // ---- world
 
@@ -384,20 +326,20 @@ func runUcsHistory(r *h.Report, d *h.Driver, cfg ucsCfg, ops []string) {
 	d.Mark()
 	spec := map[string]ucsVal{}
 	monitor := true
-	inflight := map[string]*ucsG{}
+	inflight := map[string]*h.G{}
 	overlapped := false     // some read-modify-write cycles overlapped since the last quiescent check
 	everOverlapped := false // … at any time in this history (the value-copy member is then not expected to be exact)
 	var done []string
 	defer func() {
 		for _, g := range inflight {
 			select {
-			case g.release <- struct{}{}:
+			case g.Release <- struct{}{}:
 			default:
 			}
 		}
 		for _, g := range inflight {
 			select {
-			case <-g.done:
+			case <-g.Done:
 			case <-time.After(5 * time.Second):
 			}
 		}
@@ -507,9 +449,7 @@ func runUcsHistory(r *h.Report, d *h.Driver, cfg ucsCfg, ops []string) {
 			}
 			calmOnly = !everOverlapped
 		case "read":
-			if len(inflight) > 0 {
-				panic("read while cycles are open: " + op)
-			}
+			open := len(inflight) > 0 // a read between some cycle's copy and store: compared with the model, not judged
 			reply, errS := uw.peerRead()
 			done = append(done, op)
 			if errS != "" {
@@ -523,7 +463,7 @@ func runUcsHistory(r *h.Report, d *h.Driver, cfg ucsCfg, ops []string) {
 			if impl != regS {
 				r.SpecFail("C20/read-differs-from-registry", done, fmt.Sprintf("reply {%s} stored {%s}", impl, regS))
 			}
-			if monitor && ucsMapStr(rm) != ucsMapStr(spec) {
+			if monitor && !open && ucsMapStr(rm) != ucsMapStr(spec) {
 				key := "C20/read-differs-from-declared"
 				if overlapped {
 					key = ucsLostKey
@@ -539,7 +479,7 @@ func runUcsHistory(r *h.Report, d *h.Driver, cfg ucsCfg, ops []string) {
 				continue
 			}
 			for _, g := range inflight {
-				if g.op[1] == f[3] {
+				if g.Op[1] == f[3] {
 					monitor = false // two open cycles on one entity: the outcome is order-dependent, not judged
 				}
 			}
@@ -550,14 +490,14 @@ func runUcsHistory(r *h.Report, d *h.Driver, cfg ucsCfg, ops []string) {
 				overlapped, everOverlapped = true, true
 			}
 			opw := f[2:]
-			g := ucsS.start(func() { uw.apply(opw) }, opw)
+			g := ucsS.Start(func() { uw.apply(opw) }, opw)
 			done = append(done, op)
 			select {
-			case <-g.parked:
-				g.state = "parked"
+			case <-g.Parked:
+				g.State = "parked"
 				inflight[f[1]] = g
 				line, impl, kind = "copy "+f[1], "ok", "copy"
-			case <-g.done:
+			case <-g.Done:
 				// returned before the yield point: there was no data to copy; the op had no effect and no events
 				r.Eval("copy:early-return", "")
 				if monitor {
@@ -569,7 +509,7 @@ func runUcsHistory(r *h.Report, d *h.Driver, cfg ucsCfg, ops []string) {
 					r.Mismatch(done, "goroutine neither parked at UseCase.copied nor finished", "parked", "schedule driver")
 					return
 				}
-				g.state = "blocked"
+				g.State = "blocked"
 				inflight[f[1]] = g
 				r.Eval("copy:blocked", "")
 				continue
@@ -579,9 +519,9 @@ func runUcsHistory(r *h.Report, d *h.Driver, cfg ucsCfg, ops []string) {
 			if g == nil {
 				continue
 			}
-			if g.state == "blocked" {
+			if g.State == "blocked" {
 				select {
-				case <-g.parked:
+				case <-g.Parked:
 				case <-time.After(5 * time.Second):
 					r.Mismatch(append(done, op), "blocked goroutine never reached UseCase.copied", "parked", "schedule driver")
 					return
@@ -591,9 +531,9 @@ func runUcsHistory(r *h.Report, d *h.Driver, cfg ucsCfg, ops []string) {
 					return
 				}
 			}
-			g.release <- struct{}{}
+			g.Release <- struct{}{}
 			select {
-			case <-g.done:
+			case <-g.Done:
 			case <-time.After(5 * time.Second):
 				r.Mismatch(append(done, op), "released goroutine did not finish", "finished", "schedule driver")
 				return
@@ -601,10 +541,10 @@ func runUcsHistory(r *h.Report, d *h.Driver, cfg ucsCfg, ops []string) {
 			delete(inflight, f[1])
 			done = append(done, op)
 			if monitor {
-				ucsSpecApply(spec, g.op)
+				ucsSpecApply(spec, g.Op)
 			}
 			impl, _, _ = ucsRender(uw.registry())
-			line, kind = "store "+f[1]+" "+strings.Join(g.op, " "), "store"
+			line, kind = "store "+f[1]+" "+strings.Join(g.Op, " "), "store"
 			calmOnly = !everOverlapped
 		default:
 			panic("bad op " + op)
@@ -801,36 +741,36 @@ var ucsWitness = []string{"copy 1 add 1 1 1 0 1 - 0", "copy 2 add 2 1 1 0 1 - 0"
 func ucsProbe() (serialised bool, lost bool) {
 	uw := newUcsWorld()
 	defer uw.close()
-	g1 := ucsS.start(func() { uw.apply(strings.Fields("add 1 1 1 0 1 - 0")) }, nil)
+	g1 := ucsS.Start(func() { uw.apply(strings.Fields("add 1 1 1 0 1 - 0")) }, nil)
 	select {
-	case <-g1.parked:
-	case <-g1.done:
+	case <-g1.Parked:
+	case <-g1.Done:
 		return true, false // no yield point reached at all: treat as serialised (hook gone)
 	case <-time.After(5 * time.Second):
 		panic("usecase probe: first goroutine neither parked nor finished")
 	}
-	g2 := ucsS.start(func() { uw.apply(strings.Fields("add 2 1 1 0 1 - 0")) }, nil)
+	g2 := ucsS.Start(func() { uw.apply(strings.Fields("add 2 1 1 0 1 - 0")) }, nil)
 	select {
-	case <-g2.parked:
-	case <-g2.done:
+	case <-g2.Parked:
+	case <-g2.Done:
 	case <-time.After(400 * time.Millisecond):
 		serialised = true
 	}
-	g1.release <- struct{}{}
-	<-g1.done
+	g1.Release <- struct{}{}
+	<-g1.Done
 	if serialised {
 		select {
-		case <-g2.parked:
-		case <-g2.done:
+		case <-g2.Parked:
+		case <-g2.Done:
 		case <-time.After(5 * time.Second):
 			panic("usecase probe: second goroutine stuck")
 		}
 	}
 	select {
-	case g2.release <- struct{}{}:
+	case g2.Release <- struct{}{}:
 	default:
 	}
-	<-g2.done
+	<-g2.Done
 	lost = !uw.es["1"].HasUseCaseSupport("CEM", "ucA") || !uw.es["2"].HasUseCaseSupport("CEM", "ucA")
 	return
 }
@@ -840,7 +780,7 @@ func TestUseCase(t *testing.T) {
 	defer r.Write()
 	d := h.StartDriver("drv_uc")
 	defer d.Close()
-	spine.VerifYield = ucsS.hook
+	spine.VerifYield = ucsS.Hook
 	defer func() { spine.VerifYield = nil }()
 
 	serialised, lost := ucsProbe()
@@ -962,7 +902,7 @@ func TestUseCase(t *testing.T) {
 			r.Eval("free-running-round", "")
 			uw.close()
 		}
-		spine.VerifYield = ucsS.hook
+		spine.VerifYield = ucsS.Hook
 	}
 
 	// ---- minimise witnesses of unlisted spec failures and of the first mismatch
@@ -991,14 +931,18 @@ func TestUseCase(t *testing.T) {
 			r.ReplaceMismatch(0, small, q.Mismatches[0].Impl, q.Mismatches[0].Model)
 		}
 	}
-	mods := 0
-	for _, k := range []string{"add", "rm", "avail", "rmall"} {
-		mods += r.Dist[k+":changed"] + r.Dist[k+":same"]
-	}
-	r.Floor("modifying ops that changed the registry", r.Dist["add:changed"]+r.Dist["rm:changed"]+r.Dist["avail:changed"]+r.Dist["rmall:changed"], mods, 0.35)
-	r.Floor("removals that removed something", r.Dist["rm:changed"], r.Dist["rm:changed"]+r.Dist["rm:same"], 0.30)
-	r.Floor("HasUseCaseSupport answering true", r.Dist["has:true"], r.Dist["has:true"]+r.Dist["has:false"], 0.25)
-	if !serialised {
-		r.Floor("overlapping schedules on which the two members differ", r.Dist["members-differ"], r.Dist["store"], 0.01)
+	// floors describe the generator on complete histories; histories cut short by a disagreement distort them
+	// (and the disagreement is reported anyway)
+	if r.MismatchN == 0 {
+		mods := 0
+		for _, k := range []string{"add", "rm", "avail", "rmall"} {
+			mods += r.Dist[k+":changed"] + r.Dist[k+":same"]
+		}
+		r.Floor("modifying ops that changed the registry", r.Dist["add:changed"]+r.Dist["rm:changed"]+r.Dist["avail:changed"]+r.Dist["rmall:changed"], mods, 0.35)
+		r.Floor("removals that removed something", r.Dist["rm:changed"], r.Dist["rm:changed"]+r.Dist["rm:same"], 0.30)
+		r.Floor("HasUseCaseSupport answering true", r.Dist["has:true"], r.Dist["has:true"]+r.Dist["has:false"], 0.25)
+		if !serialised {
+			r.Floor("overlapping schedules on which the two members differ", r.Dist["members-differ"], r.Dist["store"], 0.01)
+		}
 	}
 }
